@@ -212,6 +212,8 @@ def c13(tier):
     cw.cw2(P, C, only=("splinetable_glamfit",))
     C.extra["units"] = sorted(P.units.keys())
     sp.mm1(P, C)
+    # a scalar argument is broadcast by its own length, never by another argument's (a one-element list indexed by the dimension)
+    gw.gw1(P, C)
     return C.finish()
 
 
@@ -291,6 +293,8 @@ def c16(tier):
     C.extra["units"] = sorted(P.units.keys())
     # accepted entries survive serialisation: the writer appends them, it never searches-and-replaces by their names
     fs.fs9(P, C)
+    # a value changes by installing a new string, never by writing into the stored one
+    ax.km5(P, C)
     # a typed read denotes the stored string: nothing of an earlier read (stream state, scratch) is kept between calls
     selftest.run(P, C, ('re1',))
     dp.re1(P, C)
@@ -509,6 +513,8 @@ def c14(tier):
     cw.cw1(P, C, only=("splinetable_convolve",))
     C.extra["units"] = sorted(P.units.keys())
     C.extra["not_decided"] = ["convolution integral identity", "convoluted_blossom / divdiff numerics"]
+    # the transfer matrix is multiplied INTO the scratch array: it starts from zero
+    uw.uw10(P, C)
     return C.finish()
 
 
